@@ -1152,7 +1152,7 @@ class PacketizerUView(SSView):
     unchanged, (2) a producer that pauses *inside* a packet keeps its data/last/header lines, (3) no single-beat
     packets.  env = (lines last driven, beat pending, inside a packet).  The whole source token is compared, also
     the padding bytes of the flush (`last`) beat: since the fix of C04-packetizer-flush-padding-unstable they are 0
-    and no longer follow the idle sink lines (Lean: packetizer_stable_all).
+    and no longer follow the idle sink lines (Lean: packetizer_stable_partial).
     letter = (valid, data, last, header fields..., ready); outs = [sink.ready, source.valid, data, last]."""
     kind = "packetizer-unaligned"
     strict = True
